@@ -356,6 +356,10 @@ _CACHED_PROJECT_ROOT: Path | None = None
 def get_ignore_parser(project_root: Path | None = None) -> IgnoreDirectiveParser:
     """Get cached ignore parser instance (singleton pattern for performance)."""
     global _CACHED_PARSER, _CACHED_PROJECT_ROOT  # pylint: disable=global-statement
+    if project_root is None and _CACHED_PARSER is not None:
+        # Rules ask without a root: they get the parser of the project being linted (created by
+        # the orchestrator), not one bound to whatever directory the command was started from
+        return _CACHED_PARSER
     effective_root = project_root or Path.cwd()
     if _CACHED_PARSER is None or _CACHED_PROJECT_ROOT != effective_root:
         _CACHED_PARSER = IgnoreDirectiveParser(effective_root)
